@@ -8,8 +8,8 @@
    assemble enc p = XOk (f_base, concat f_chunks, f_syms).
    [enc] is the output charset, universally quantified (bk_enc in the runs). *)
 From Coq Require Import ZArith List String Ascii Bool NArith.
-From Verif Require Import Base.Res Spec.PDP11 Spec.Arith Spec.DataSpec Model.Insns Model.Directives Model.Asm
-  Proofs.InsnsMain Proofs.AsmP Proofs.AsmSem Proofs.AsmTotal Proofs.AsmSized Proofs.AsmMeta Proofs.AsmLaws Proofs.AsmMove.
+From Verif Require Import Base.Res Spec.PDP11 Spec.Arith Spec.DataSpec Model.Insns Model.Directives Model.Asm Model.AsmT Model.AsmRel
+  Proofs.InsnsMain Proofs.AsmP Proofs.AsmSem Proofs.AsmTotal Proofs.AsmSized Proofs.AsmMeta Proofs.AsmLaws Proofs.AsmMove Proofs.AsmSup Proofs.AsmRelP.
 From Verif Require Model.Rad50.
 Import ListNotations.
 Notation length := Datatypes.length.
@@ -33,8 +33,8 @@ Print Assumptions R_image.
    (every statement deferred, announcing the size the layout used). *)
 Theorem R_layout : forall enc p f, assemble_full enc p = XOk f ->
   length (f_chunks f) = length (f_items f) /\
-  flat (layout_count enc (collect_defs 0 0 (cut_end p)) (collect_keys 0 0 (cut_end p)) (f_exports f)
-          (S (length (collect_defs 0 0 (cut_end p))))) (cut_end p) (map i_stmt (f_items f)) /\
+  (exists b', flat (layout_count enc (collect_defs 0 0 (cut_end p)) (collect_keys 0 0 (cut_end p)) (f_exports f)
+                      (S (length (collect_defs 0 0 (cut_end p))))) false (cut_end p) (map i_stmt (f_items f)) b') /\
   (forall k it bs, nth_error (f_items f) k = Some it -> nth_error (f_chunks f) k = Some bs ->
       i_size it = zlen bs /\
       i_addr it = f_base f + zlen (concat (firstn k (f_chunks f))) /\
@@ -52,8 +52,9 @@ Print Assumptions R_layout.
 
 (* [flat] records, for every .repeat, as many copies of its body as its count expression evaluates to where the
    layout meets it ([layout_count]: Asm.lev + get_as_int(None, unsigned)); for a literal count that is the literal.
-   Known looseness of [flat]: flat_base lets any `. = e` appear as a silent Link; the model does so only for the
-   first base-fixing statement (lay_leaf: l_based false), which [flat] does not track. *)
+   [flat] threads the flag "the link base is fixed" (false at the start): only the `. = e` met while it is false is
+   recorded as a silent Link, a .link is only met then, later `. = e` stay skips; .repeat bodies and included files
+   leave the flag alone. *)
 Theorem R_repeat_count_literal : forall enc alldefs allkeys exports fuel n k,
   layout_count enc alldefs allkeys exports fuel (numlit n) k -> k = n.
 Proof. exact layout_count_literal. Qed.
@@ -173,6 +174,39 @@ Theorem R_segment_law : forall enc (R : item -> item -> Prop) names l1 l2 X X',
 Proof. exact segment_law. Qed.
 Print Assumptions R_segment_law.
 
+(* R_supported: a syntactic class on which the model always decides.  [supported p] (Model/AsmT.v, boolean):
+   file ids of the inclusions distinct; every expression the LAYOUT has to evaluate -- .repeat counts, .blkb/.blkw/
+   .align operands, `. = e`, <n> in strings, the link base (which may not use `.` either) -- is made of literals,
+   `.` and names defined in the same file only by literal expressions (no count / base through labels); no .link,
+   `. =`, .include, .extern, .end inside a .repeat; no .link / `. =` inside an included file.  Then the only
+   Unsupported answer left is the model's own size guard (R_guard_partial).  The proof rests on the agreement
+   between the collectors and the layout: every collected label key is laid out, every collected definition has
+   its address (Proofs/AsmSup.v: frame_program). *)
+Theorem R_supported : forall enc p, supported p = true -> forall why, assemble enc p = XUnsup why -> why = "size-guard".
+Proof. exact supported_thm. Qed.
+Print Assumptions R_supported.
+
+(* ---- counts through later labels whose dependence on unknown sizes cancels (Model/AsmRel.v) ----------------
+   assemble_rel rewrites such .repeat counts to literals (constants over address polynomials, Model/Poly.v) and
+   hands the program to assemble.  R_rel_sound_partial: its answer IS an answer of assemble for the rewritten
+   program p' -- so every theorem above applies to p' --, p' differs from the program only in the rewritten counts
+   (R_rel_shape), and each rewritten count expression evaluates, by the Spec under the final symbol table, to the
+   literal that replaced it.  Partial: that the polynomial pre-pass accepts a count exactly when pdpy11's
+   LinearPolynomial cancellation does is tied by correspondence only (13colours, specials). *)
+Theorem R_rel_sound_partial : forall enc p f, assemble_rel_full enc p = XOk f ->
+  exists p' ch, resolve enc p = (p', ch) /\ assemble_full enc p' = XOk f /\
+    Forall (fun c => Arith.eval (cenc enc) (sym_of (f_exports f) (f_syms f) (0%nat, None)) 0 (fst c) = Ok (snd c)) ch.
+Proof. exact rel_sound. Qed.
+Print Assumptions R_rel_sound_partial.
+
+Theorem R_rel_shape : forall enc p p' ch, resolve enc p = (p', ch) -> Forall2 (same_but_count ch) (cut_end p) p'.
+Proof. exact resolve_shape. Qed.
+Print Assumptions R_rel_shape.
+
+Theorem R_rel_no_crash : forall enc p, (forall s, assemble_rel enc p <> XCrash s) /\ assemble_rel enc p <> XOutOfFuel.
+Proof. exact rel_no_crash. Qed.
+Print Assumptions R_rel_no_crash.
+
 (* R_guard_partial: what is NOT proved.  Statements without an announced size (.blkb .blkw .even .odd .align
    .ascii .asciz .rad50 `. = e` insert_file) are laid out with the length of what they emit under the labels and
    definitions known at that point; assemble re-evaluates them with the final table and answers
@@ -232,6 +266,26 @@ Example R_example_unroll :
   assemble bk_enc [Label "s"; Word [Dot]; Byte [num 1]; Even; Word [Dot]; Byte [num 1]; Even; Word [Dot]; Byte [num 1]; Even; Word [Sym "s"]]
   /\ forallb (plainf (lnames [Label "s"; Word [Sym "s"]])) [Word [Dot]; Byte [num 1]; Even] = true.
 Proof. vm_compute. split; reflexivity. Qed.
+
+(* the shape of 13colours: the count (free - code) / 2 through two later labels; a count that depends on its own
+   size is still refused *)
+Definition ex_rel : program :=
+  [ Insn "mov" [AImm (Sym "free"); AReg (num 2)];
+    Repeat (Bin BDiv (Group Paren (Bin BSub (Sym "free") (Sym "code"))) (num 2)) [Insn "mov" [AAutoInc (num 1); AAutoInc (num 2)]];
+    Label "code"; Insn "mov" [AReg (num 5); ARegDef (num 0)]; Insn "clr" [AReg (num 1)];
+    Label "free"; Word [Sym "code"] ].
+Example R_example_rel :
+  assemble bk_enc ex_rel = XUnsup "label-not-laid-out-yet" /\
+  assemble_rel bk_enc ex_rel =
+    XOk (512, [194; 21; 12; 2; 82; 20; 82; 20; 72; 17; 1; 10; 8; 2], [(KGlobal 0 "free", 524); (KGlobal 0 "code", 520)]) /\
+  assemble_rel bk_enc [Label "s"; Repeat (Bin BSub (Sym "e") (Sym "s")) [Insn "nop" []]; Label "e"] = XUnsup "label-not-laid-out-yet".
+Proof. vm_compute. repeat split; reflexivity. Qed.
+
+Example R_example_supported :
+  supported ex_program = true /\
+  supported [Assign "n" (num 3); Blkb (Sym "n"); Repeat (Sym "n") [Word [Dot; Sym "later"]]; Label "later"] = true /\
+  supported [Blkb (Sym "l"); Label "l"] = false /\ supported [Repeat (num 2) [Link (num 512)]] = false.
+Proof. vm_compute. repeat split; reflexivity. Qed.
 
 (* refusals are results, not crashes: a cycle, a branch out of reach, a count through a later label *)
 Example R_example_refusals :
